@@ -57,12 +57,19 @@ func (kv *KeyValue) Flush() error {
 	kv.mu.Lock()
 	defer kv.mu.Unlock()
 	var (
-		bmback = kv.back.BeginBatch()
+		// bmback is only begun if there is something to flush: a
+		// batch that is never committed may hold resources of the
+		// backing store forever (sqlkv holds its lock and a
+		// transaction from BeginBatch until CommitBatch).
+		bmback sorted.BatchMutation
 		bmbuf  = kv.buf.BeginBatch()
 		commit = false
 		it     = kv.buf.Find("", "")
 	)
 	for it.Next() {
+		if bmback == nil {
+			bmback = kv.back.BeginBatch()
+		}
 		bmback.Set(it.Key(), it.Value())
 		bmbuf.Delete(it.Key())
 		commit = true
